@@ -313,7 +313,7 @@ impl Property for C13 {
         "fault_enumeration"
     }
     fn rule(&self) -> String {
-        "well-formed SEM programs (see C05; no probes) must produce no diagnostic in any file; then one fault is seeded per case (see the fault classes in the family names) and >=1 diagnostic must intersect the seeded site in the seeded file, and no diagnostic may appear in files the fault does not touch. distinct = (seed, n, fault); non-trivial = program with >=3 declaration kinds and >=1 bang operator (clean), or any seeded case. Family real-files: the vendored files that llvm-tblgen-14 accepts as a root of their own (14 LLVM-14 headers - Target.td, Intrinsics.td with all target intrinsics, ValueTypes.td, OptParser.td, OMP.td, … - and three hand-written backend descriptions), analysed with the whole include tree, in LF and CRLF form, must produce no diagnostic".into()
+        "well-formed SEM programs (see C05; no probes) must produce no diagnostic in any file; then one fault is seeded per case (see the fault classes in the family names) and >=1 diagnostic must intersect the seeded site in the seeded file, and no diagnostic may appear in files the fault does not touch. distinct = (seed, n, fault); non-trivial = program with >=3 declaration kinds and >=1 bang operator (clean), or any seeded case. Family real-files: the vendored files that llvm-tblgen-14 accepts as a root of their own (14 LLVM-14 headers - Target.td, Intrinsics.td with all target intrinsics, ValueTypes.td, OptParser.td, OMP.td, … - and five hand-written backend descriptions), analysed with the whole include tree, in LF and CRLF form, must produce no diagnostic".into()
     }
     fn families(&self, ctx: &Ctx) -> Vec<Family> {
         let mut v = vec![Family::new("well-formed", ctx.tier.pick(400, 40000), |_c, rng, emit| {
